@@ -883,8 +883,8 @@ func (r *c13Run) start() {
 	}
 	cfg.IncubateOutputs = func(_ wire.OutPoint,
 		outRes fn.Option[lnwallet.OutgoingHtlcResolution],
-		inRes fn.Option[lnwallet.IncomingHtlcResolution], uint32, fn.Option[int32],
-		...IncubateOption) error {
+		inRes fn.Option[lnwallet.IncomingHtlcResolution], _ uint32, _ fn.Option[int32],
+		_ ...IncubateOption) error {
 
 		// IncubateOutputs persists the output in the nursery store: a
 		// durable write (idempotent), hence a stop point.
